@@ -196,6 +196,10 @@ func genTransport(g *GenCtx, emit func(head string, gos [][]string)) {
 	for _, d := range []int{36, 37, 38, 39, 40, 40, 41, 41, 42, 43, 44, 46} {
 		emit("obj=t hst=40", [][]string{{"s.c"}, {"c.hs"}, {"sl:20", "c.rm"}, {fmt.Sprintf("sl:%d", d), "c.c"}, {fmt.Sprintf("sl:%d", d+1), "c.rm"}, {fmt.Sprintf("sl:%d", d+2), "c.hs", "c.c"}})
 	}
+	// Close right after the handshake while readers wait and a message from the peer is already queued
+	for k := 0; k < 4; k++ {
+		emit("obj=t", [][]string{{"s.acc", "h.wm:2001"}, {"c.hs", "c.c"}, {"c.rm"}, {"c.r"}, {"sl:100", "c.rm", "c.rm"}, {"sl:300", "s.c"}})
+	}
 	n := 110
 	if g.Thorough() {
 		n = 2500 / g.Parts
